@@ -52,16 +52,17 @@ type Conc struct {
 }
 
 type Case struct {
-	Addrs []string `json:"addrs"`
-	Ops   []Op     `json:"ops"`
-	Pa    int      `json:"pa"`
-	Obs   []int64  `json:"obs"`
-	Nogc  []bool   `json:"nogc"`
-	Alone []bool   `json:"alone"`
-	Gen   string   `json:"gen"`
-	Conc  *Conc    `json:"conc,omitempty"`
-	Dev   *Dev     `json:"dev,omitempty"`
-	Live  *Live    `json:"live,omitempty"`
+	Addrs  []string `json:"addrs"`
+	Ops    []Op     `json:"ops"`
+	Pa     int      `json:"pa"`
+	Obs    []int64  `json:"obs"`
+	Nogc   []bool   `json:"nogc"`
+	Alone  []bool   `json:"alone"`
+	Gen    string   `json:"gen"`
+	Conc   *Conc    `json:"conc,omitempty"`
+	Dev    *Dev     `json:"dev,omitempty"`
+	Live   *Live    `json:"live,omitempty"`
+	Forced *Forced  `json:"forced,omitempty"`
 }
 
 var consts = map[string]int64{}
@@ -708,6 +709,7 @@ func main() {
 	replayIn := flag.String("replay", "", "JSON file with cases (addrs, ops, pa | conc) to run; observed results are filled in")
 	corpus := flag.String("corpus", "", "directory of corpus JSON cases to prepend")
 	conc := flag.Int("conc", 16, "callers in the concurrent new-address scenario (0 = skip)")
+	forced := flag.String("forced", "first-messages,burst-in-pass", "schedule-forcing scenarios (comma separated, empty = skip)")
 	live := flag.Bool("live", true, "run the real-collector liveness scenario")
 	dev := flag.String("dev", "v4,v6", "device-level real-time scenarios to run (comma separated families, empty = skip)")
 	flag.Parse()
@@ -747,6 +749,12 @@ func main() {
 			panic(err)
 		}
 		wantLive := false
+		*forced = ""
+		for i := range in {
+			if in[i].Forced != nil {
+				*forced += "," + in[i].Forced.Name
+			}
+		}
 		for i := range in {
 			if in[i].Dev != nil {
 				devFamilies = append(devFamilies, in[i].Dev.Family)
@@ -758,7 +766,7 @@ func main() {
 		startDev()
 		runLiveBg(wantLive)
 		for i := range in {
-			if in[i].Dev != nil || in[i].Live != nil {
+			if in[i].Dev != nil || in[i].Live != nil || in[i].Forced != nil {
 				continue
 			}
 			if in[i].Conc != nil {
@@ -789,7 +797,7 @@ func main() {
 				var cs []Case
 				if json.Unmarshal(data, &cs) == nil {
 					for _, c := range cs {
-						if c.Conc != nil || c.Dev != nil || c.Live != nil || len(c.Addrs) == 0 {
+						if c.Conc != nil || c.Dev != nil || c.Live != nil || c.Forced != nil || len(c.Addrs) == 0 {
 							continue
 						}
 						c.Gen = "corpus"
@@ -867,6 +875,22 @@ func main() {
 		meta["dev_index"] = len(cases)
 		for _, d := range devs {
 			cases = append(cases, Case{Addrs: []string{}, Ops: []Op{}, Obs: []int64{}, Nogc: []bool{}, Alone: []bool{}, Gen: "device-level-" + d.Family, Dev: d})
+		}
+	}
+	var frs []*Forced
+	for _, n := range strings.Split(*forced, ",") {
+		if n = strings.TrimSpace(n); n != "" {
+			frs = append(frs, runForced(n))
+		}
+	}
+	if len(frs) > 0 {
+		if err := writeForced(filepath.Join(*out, "cases_C19_forced.v"), frs); err != nil {
+			panic(err)
+		}
+		meta["forced_file"] = "cases_C19_forced.v"
+		meta["forced_index"] = len(cases)
+		for _, f := range frs {
+			cases = append(cases, Case{Addrs: []string{}, Ops: []Op{}, Obs: []int64{}, Nogc: []bool{}, Alone: []bool{}, Gen: "forced-" + f.Name, Forced: f})
 		}
 	}
 	<-liveDone
